@@ -43,12 +43,27 @@ CHECKS = {
  "C14": ("model_checking", "explicit-state BFS on the real code; per-state save/save probe, three-process MALLOC_PERTURB_ digest join, memcheck pass",
          "In every reachable state the object is snapshotted, saved twice and snapshotted again (purity, repeatability); the exploration is repeated in three processes whose fresh heap bytes differ (MALLOC_PERTURB_ unset/0x55/0xAA) and the per-state file digests are joined on the state key; a shallower exploration runs entirely under valgrind memcheck and counts errors around each save.",
          "stack-sourced garbage is visible only to the memcheck pass (depth 1 quick / 2 thorough)", "§3 C14", "api"),
+ "C15": ("fault_enumeration", "exhaustive single-fault (thorough: pair) enumeration over a fake device interposed under libc: every capacity, every write call, every open/close fault",
+         "For 4 objects every fault plan is executed on the real save path: open fails (3 errnos), device capacity C for every C in [0,size), k-th write call fails (2 errnos) for every k, close fails, all/k-th write short; oracle: returned normally => the device holds exactly the fault-free bytes, otherwise std::ios_base::failure must propagate; short writes alone must not fail.",
+         "faults injected at fopen/fopen64/write/writev/fclose by link-time interposition (verified to sit under libstdc++'s basic_filebuf)", "§3 C15", "fault"),
+ "C16": ("fault_enumeration", "exhaustive damage enumeration (truncations, byte overwrites, structural-field sweeps, pairs) of small valid files loaded by the real code in forked children under cap + watchdog, plain and ASan builds",
+         "5 base files; every truncation length; every byte of header+parameters+first data block x 5 boundary values; every structural byte x 256 values; pairs of structural bytes x boundary values; child must end through 'object returned' or 'std::exception': no signal, no sanitizer report, no timeout (re-run alone with 10x limit), no memory growth stopped only by the cap (re-checked under 8 GiB).",
+         "signature = outcome / innermost ezc3d function / damaged field kind", "§3 C16", "damage"),
+ "C17": ("exploration", "bounded-exhaustive enumeration of capacity limits at L-1, L, L+1, far beyond, alone and in pairs, built through the API, saved and reloaded on the real code",
+         "13 capacity limits; at or below L the content must round-trip (C01 projection); above L saving must throw or the reload must equal the saved object (anything else is silent corruption).",
+         "pairs with > 10^7 points not built; last-frame-number limit covered by C12's header sweep", "§3 C17", "misc"),
+ "C18": ("model_checking", "stateless preemption-bounded exhaustive schedule exploration of the real code under a cooperative scheduler (function entry/exit + libc I/O scheduling points) + free-running ThreadSanitizer pass",
+         "2-thread (thorough: also 3-thread) groups of bodies on independent objects; all thread orders, one preemption at every one of ~10^4 fine points per thread, two preemptions over all pairs of coarse points; every schedule is a real execution whose per-thread digest (dump after every op, saved bytes, exception classes) must equal the body run alone; diverging schedules are re-run before being reported. The same bodies run free under TSan (hand-offs of a cooperative scheduler would blind it).",
+         "sub-function interleavings and weak memory only via the TSan pass", "§3 C18", "sched"),
+ "C19": ("exploration", "configuration matrix: the six supported CMake builds each run the same deterministic exhaustive corpora; transcripts compared line by line",
+         "Debug/RelWithDebInfo/Release x shared/static built with the project's CMakeLists; corpora: three API state spaces (every transition with outcome class + successor hash + saved-file digest per state), the file corpus through load/save generations, all integer/float pattern files, the setter shape table.",
+         "harness objects compiled once; x86-64 gcc only", "§3 C19", "c19"),
  "C11": ("model_checking", "explicit-state BFS on the real code + exhaustive look-up sweep in every state",
          "In every distinct state every positional accessor is called with {0..size-1,size,size+1,2^32,2^64-1} and every by-name accessor with {present, absent, case variant, padded, empty}; typed getters on every parameter; trailing-space naming clause on every naming call.",
          "container sizes bounded by the shape guards", "§3 C11", "api"),
 }
 NOT_YET = {}
-TODO = ["C15", "C16", "C17", "C18", "C19"]
+TODO = []
 
 def main():
     checks = []
@@ -57,10 +72,15 @@ def main():
                        "evidence_file": f"/verif/evidence/{pid}.json", "replay_cmd_template": "python3 run.py replay {path}", "engine": eng,
                        "level_claimed": {"category": cat, "text": text, "design_ref": ref}, "level_note": note, "technique": tech})
     na = [{"property_id": p, "reason": "check under construction in this round (see DESIGN.md §8); not claimed yet"} for p in TODO if p not in CHECKS]
-    m = {"version": 1, "setup_cmd": "python3 run.py build plain asan",
+    m = {"version": 1, "setup_cmd": "python3 run.py build plain asan sched tsan",
          "hooks": {"guard": "EZC3D_VERIF", "enable": "no source hooks are needed: state is read through public accessors, libc is interposed at link time, scheduling points come from -finstrument-functions",
                    "baseline_off_cmd": "cmake --build /repo/_build && ctest --test-dir /repo/_build -j8 --timeout 900", "source_commits": [], "add_only": True},
          "engines": [{"name": "file", "path": "harness/drv_file.cpp", "serves_properties": sorted(p for p, c in CHECKS.items() if c[5] == "file"), "kind_free_text": "deviation-bounded enumeration of generated C3D files (independent encoder/decoder) executed on the real loader and writer"},
+                     {"name": "fault", "path": "harness/drv_fault.cpp + harness/io_shim.c", "serves_properties": ["C15"], "kind_free_text": "fake device under libc with an exhaustive fault plan enumeration"},
+                     {"name": "damage", "path": "harness/drv_damage.cpp", "serves_properties": ["C16"], "kind_free_text": "exhaustive damage enumeration, forked loader children under cap and watchdog"},
+                     {"name": "misc", "path": "harness/drv_misc.cpp", "serves_properties": ["C17", "C09"], "kind_free_text": "capacity-limit enumeration and setter shape table"},
+                     {"name": "sched", "path": "harness/drv_sched.cpp", "serves_properties": ["C18"], "kind_free_text": "cooperative scheduler + preemption-bounded schedule enumeration; TSan free-run"},
+                     {"name": "c19", "path": "run.py (check_c19)", "serves_properties": ["C19"], "kind_free_text": "six CMake configurations x deterministic corpora, transcript equality"},
                      {"name": "api", "path": "harness/drv_api.cpp", "serves_properties": sorted(p for p, c in CHECKS.items() if c[5] == "api"), "kind_free_text": "explicit-state BFS over API histories executed on the real library (forked level-synchronous workers, 128-bit state hash of the public-accessor dump + aliasing partition)"}],
          "checks": checks, "not_applicable": na,
          "notes": "All checks rebuild the harness against /repo's current working tree (content-hashed cache under /verif/build). Known findings: known_findings.json."}
